@@ -243,6 +243,9 @@ def run_values(case, part):
 
 
 # ---- (iii) member names: every object node of a valid instance gets one more member with an unusual (but JSON-legal) name -------------------
+SPECIAL_MEMBERS = [("granular_markings", ["x"]), ("granular_markings", [1]), ("granular_markings", "x"), ("granular_markings", [{}]), ("granular_markings", [{"selectors": "name"}]),
+                   ("object_marking_refs", ["x"]), ("object_marking_refs", 5), ("extensions", ["x"]), ("extensions", {"x": 1}), ("spec_version", 2.1), ("created", []), ("modified", {}), ("id", 5),
+                   ("type", None), ("revoked", "yes"), ("hashes", ["x"]), ("objects", "x"), ("selectors", 5)]
 NAMES = ["", " ", "1abc", "\u00e9t\u00e9", "a" * 300, "\n", "a.b", "a b", "__proto__", "x_", "custom_properties", "allow_custom", "self", "cls", "kwargs", "interoperability", "_inner", "type\n"]
 
 
@@ -274,6 +277,16 @@ def run_names(case, part):
     for path in dict_nodes(wrapped):
         if case.get("node") is not None and list(path) != case["node"]:
             continue
+        for name, val in SPECIAL_MEMBERS:
+            node = harness.locate(wrapped, path)
+            if name in node or (case.get("name") is not None and name != case["name"]):
+                continue
+            j = copy.deepcopy(wrapped)
+            harness.locate(j, path)[name] = copy.deepcopy(val)
+            for allow in (False, True):
+                c = dict(case, node=list(path), name=name, value=val, allow_custom=allow)
+                for ename, fn in entries(j, version, allow, is_sco):
+                    call(part, ename, fn, c, "known-member-name-where-it-is-not-defined:%s/%s" % (name, "top-level" if not path else "nested"))
         for name in NAMES:
             if case.get("name") is not None and name != case["name"]:
                 continue
@@ -375,6 +388,27 @@ def run_extension_types(case, part):
                 body = {} if v == "$absent" else {"extension_type": copy.deepcopy(v)}
                 if k == "archive-ext":
                     body["contains_refs"] = ["file--3f7f0c5f-5d54-4292-94ea-ec1e1952be12"]
+                if kname == "registered-toplevel-extension" and vl == "toplevel-property-extension":
+                    # the SAME two extensions in both key orders: a registered top-level extension's property is validated whichever comes first
+                    for tl, tv in JUNK:
+                        outs = []
+                        for order in ((TE, UE), (UE, TE)):
+                            exts = {}
+                            for e in order:
+                                exts[e] = {"extension_type": "toplevel-property-extension"}
+                            j = dict(copy.deepcopy(b), extensions=exts, toprank=copy.deepcopy(tv))
+                            try:
+                                stix2.parse(copy.deepcopy(j), allow_custom=False)
+                                outs.append("accepted")
+                            except (stix2.exceptions.STIXError, ValueError, TypeError):
+                                outs.append("refused")
+                            except Exception as e:
+                                outs.append("escape:" + type(e).__name__)
+                        part.evaluations += 2
+                        part.transitions += 2
+                        if outs[0] != outs[1]:
+                            part.violation("C17/validation-depends-on-extension-key-order", "the same content is validated differently depending on the order of the keys of 'extensions'",
+                                           dict(case, ext_key=kname, value=vl, toprank=tl), "same verdict", outs)
                 for extra in ({}, {"toprank": 1}, {"zzz": {"a": 1}}):
                     j = dict(copy.deepcopy(b), extensions={k: body}, **extra)
                     for allow in (False, True):
@@ -428,6 +462,83 @@ def run_arguments(case, part):
                     c = {"kind": "arguments", "version": case["version"], "marking": {k: v for k, v in j.items() if k in ("definition_type", "definition", "extensions")}, "allow_custom": allow}
                     for ename, fn in entries(j, case["version"], allow, False):
                         call(part, ename, fn, c, "marking-definition-shape/%s/%s/%s" % (dt_, "absent" if defn == "$absent" else kind_of(defn), "with-extensions" if ext != "$absent" else "no-extensions"))
+
+
+# ---- (iv-d) refused REGISTRATIONS leave the registries exactly as they were -------------------------------------------------------------------
+def run_refused_registrations(case, part):
+    import stix2
+    from stix2 import properties as P
+    env.reset()
+    snap = env.registry_snapshot()
+    try:
+        E1, E2 = "extension-definition--3f7f0c5f-5d54-4292-94ea-ec1e1952c0d1", "extension-definition--3f7f0c5f-5d54-4292-94ea-ec1e1952c0d2"
+        props = lambda: [("prop", P.StringProperty())]
+
+        def body():
+            class B(object):
+                pass
+            return B
+        # what is registered first (must all succeed)
+        stix2.v21.CustomObservable("x-verif-r1", props(), extension_name=E1)(body())
+        stix2.v21.CustomObject("x-verif-r2", props(), extension_name=E2)(body())
+        stix2.v21.CustomExtension("x-verif-r3-ext", props())(body())
+        stix2.v21.CustomMarking("x-verif-r4", props())(body())
+        stix2.v20.CustomObservable("x-verif-r5", props())(body())
+        attempts = [
+            ("observable-with-taken-extension_name", lambda: stix2.v21.CustomObservable("x-verif-n1", props(), extension_name=E1)(body())),
+            ("observable-with-extension_name-of-an-object", lambda: stix2.v21.CustomObservable("x-verif-n2", props(), extension_name=E2)(body())),
+            ("object-with-taken-extension_name", lambda: stix2.v21.CustomObject("x-verif-n3", props(), extension_name=E2)(body())),
+            ("object-with-extension_name-of-an-observable", lambda: stix2.v21.CustomObject("x-verif-n4", props(), extension_name=E1)(body())),
+            ("observable-with-name-of-plain-extension", lambda: stix2.v21.CustomObservable("x-verif-n5", props(), extension_name="x-verif-r3-ext")(body())),
+            ("extension-with-taken-definition-id", lambda: stix2.v21.CustomExtension(E1, props())(body())),
+            ("duplicate-observable", lambda: stix2.v21.CustomObservable("x-verif-r1", props())(body())),
+            ("duplicate-object", lambda: stix2.v21.CustomObject("x-verif-r2", props())(body())),
+            ("duplicate-marking", lambda: stix2.v21.CustomMarking("x-verif-r4", props())(body())),
+            ("object-named-like-observable", lambda: stix2.v21.CustomObject("x-verif-r1", props())(body())),
+            ("object-named-like-observable-20", lambda: stix2.v20.CustomObject("x-verif-r5", props())(body())),
+            ("invalid-type-name", lambda: stix2.v21.CustomObject("X_bad", props())(body())),
+            ("invalid-property-name", lambda: stix2.v21.CustomObservable("x-verif-n6", [("1bad", P.StringProperty())])(body())),
+            ("invalid-property-name-with-extension_name", lambda: stix2.v21.CustomObservable("x-verif-n7", [("1bad", P.StringProperty())], extension_name="extension-definition--3f7f0c5f-5d54-4292-94ea-ec1e1952c0d3")(body())),
+            ("extension_name-without-separator", lambda: stix2.v21.CustomObservable("x-verif-n8", props(), extension_name="x-verif-n8-ext")(body())),
+            ("object-extension_name-without-separator", lambda: stix2.v21.CustomObject("x-verif-n9", props(), extension_name="x-verif-n9-ext")(body())),
+            ("properties-not-a-list", lambda: stix2.v21.CustomObject("x-verif-n10", 5)(body())),
+            ("properties-none", lambda: stix2.v21.CustomObservable("x-verif-n11", None)(body())),
+        ]
+        import stix2.exceptions as X
+        for label, fn in attempts:
+            if case.get("attempt") and label != case["attempt"]:
+                continue
+            part.evaluations += 1
+            part.transitions += 1
+            before = env.registry_fingerprint()
+            c = {"kind": "refused-registrations", "attempt": label}
+            try:
+                fn()
+                part.outcome("registration:accepted")
+                env.registry_restore(snap)      # (acceptance is C19's business) start again from the same registrations
+                stix2.v21.CustomObservable("x-verif-r1", props(), extension_name=E1)(body())
+                stix2.v21.CustomObject("x-verif-r2", props(), extension_name=E2)(body())
+                stix2.v21.CustomExtension("x-verif-r3-ext", props())(body())
+                stix2.v21.CustomMarking("x-verif-r4", props())(body())
+                stix2.v20.CustomObservable("x-verif-r5", props())(body())
+                continue
+            except (X.STIXError, ValueError, TypeError):
+                part.outcome("registration:refused")
+            except Exception as e:
+                part.outcome("registration:ESCAPE:" + type(e).__name__)
+                part.violation("C17/escapes/%s@registration/%s" % (type(e).__name__, label), "a refused registration fails with an internal error", c, "STIXError / ValueError / TypeError", "%s: %s" % (type(e).__name__, str(e)[:120]))
+            if env.registry_fingerprint() != before:
+                part.violation("C17/registry-changed-after-failure/registration/%s" % label, "a refused registration changed the type registries", c, "unchanged", "changed")
+            # and what was registered before still works
+            try:
+                o = stix2.parse({"type": "x-verif-r1", "spec_version": "2.1", "id": "x-verif-r1--3f7f0c5f-5d54-4292-94ea-ec1e1952be10", "prop": "v", "extensions": {E1: {"extension_type": "new-sco"}}})
+                ok = type(o).__name__ != "dict"
+            except Exception as e:
+                ok = False
+            if not ok:
+                part.violation("C17/earlier-registration-broken-after-failure/%s" % label, "after a refused registration an earlier registered type no longer parses", c, "object", "refused / dict")
+    finally:
+        env.registry_restore(snap)
 
 
 # ---- (v) a failure must leave NOTHING behind: refused parse of a type, then its registration, then the same parse -------------------------------
@@ -513,6 +624,8 @@ def run_case(case, part):
         return run_extension_types(case, part)
     if case.get("kind") == "arguments":
         return run_arguments(case, part)
+    if case.get("kind") == "refused-registrations":
+        return run_refused_registrations(case, part)
     if case.get("kind") in ("values",):
         run_values(case, part)
     elif case.get("kind") in ("value", "text"):
@@ -522,7 +635,7 @@ def run_case(case, part):
 
 
 def replay(case, part):
-    c = {k: v for k, v in case.items() if k not in ("entry", "allow_custom", "stage", "extra", "marking")}
+    c = {k: v for k, v in case.items() if k not in ("entry", "allow_custom", "stage", "extra", "marking", "value", "toprank")}
     if c.get("kind") == "arguments":
         c = {"kind": "arguments", "version": c["version"]}
     if isinstance(c.get("junk"), list):
@@ -551,7 +664,7 @@ def run(run):
         cases.append({"kind": "depths", "base": b})
     for b in ("unregistered-type", "identity", "file"):
         cases.append({"kind": "extension-types", "base": b})
-    cases += [{"kind": "arguments", "version": "2.0"}, {"kind": "arguments", "version": "2.1"}]
+    cases += [{"kind": "arguments", "version": "2.0"}, {"kind": "arguments", "version": "2.1"}, {"kind": "refused-registrations"}]
     for ver in ("2.0", "2.1"):
         for kind in ("object", "observable"):
             for first in ("all", "parse(dict)", "parse(text)", "parse(container)", "parse_observable", "MemoryStore.add"):
